@@ -113,3 +113,9 @@ const (
 	maximumTTL = 12 * time.Hour
 	defaultCap = 1024 * 256
 )
+
+// MaximumLease is the longest a delegation is used without being asked for
+// again, whatever TTLs the parent granted. It is exported so that everything
+// learned through a delegation - not only the delegation entry itself - can
+// be bounded by the same ceiling.
+const MaximumLease = maximumTTL
